@@ -293,14 +293,19 @@ def patch_filter(ctx, fx, sp):
             if okd and okd[-1].fact != ("eq", 0):
                 continue            # the read failed: the error path (D5-ERRPROP)
             ended = bool(zero) and ((zero[-1].fact == ("eq", True)) == (zero[-1].term[1] == "Eq"))
-            okp = okp and L is not None and names[:2] == ["clear", "read_until"] and bool(zero)
+            # the buffer is empty when read_until appends to it: cleared at the top of every iteration, or created empty and cleared at the bottom
+            clear_first = names[:2] == ["clear", "read_until"]
+            hvL = [x for x in subterms(r_[0].args[2]) if x[0] == "havoc" and x[1] == L and len(x) > 3]
+            clear_last = names[:1] == ["read_until"] and bool(hvL) and all(is_call(strip_refs(x[3]), "Vec::new", "Vec::<T>::new", "Vec::with_capacity") for x in hvL)
+            okp = okp and L is not None and (clear_first or clear_last) and bool(zero)
+            rest = names[2:] if clear_first else names[1:]
             if p in backs:
                 lastc = [c for c in p.conds() if eq_call(c.term) and mentions(c.term, lambda s_: is_call(s_, "[T]>::last")) and mentions(c.term, lambda s_: s_[0] == "agg" and s_[3] == "Some" and const_int(s_[4][0]) == 10)]
                 has_nl = bool(lastc) and ((lastc[-1].fact == ("eq", True)) != eq_call(lastc[-1].term)[0])
-                okp = okp and not ended and bool(lastc) and names[2:] == (["pop"] if has_nl else [])
+                okp = okp and not ended and bool(lastc) and rest == (["pop"] if has_nl else []) + ([] if clear_first else ["clear"])
                 bufline[id(p)] = L
             else:
-                okp = okp and ended and names[2:] == []
+                okp = okp and ended and rest == []
         rd = [e.args[0] for e in ru]
         okr = all(mentions(a, lambda s_: is_call(s_, "BufReader::new", "BufReader::<R>::new") and strip_refs(call_args(s_)[0]) == ("param", 1)) for a in rd)
         ok = okp and okr
@@ -360,7 +365,7 @@ def patch_filter(ctx, fx, sp):
                 while is_call(l0, "Deref>::deref", "::as_slice") and call_args(l0):
                     l0 = strip_refs(call_args(l0)[0])
                 later = [e for e in p.events if e.kind == "call" and e.args and isinstance(e.args[0], tuple) and e.args[0][0] == "refmut" and isinstance(e.args[0][1], tuple)
-                         and e.args[0][1][:2] == ("loc", L) and p.events.index(e) > p.events.index(a)]
+                         and e.args[0][1][:2] == ("loc", L) and p.events.index(e) > p.events.index(a) and not (ev_is(e, "Vec::clear") and not any(p.events.index(u_) > p.events.index(e) for u_ in ups))]
                 pristine = isinstance(l0, tuple) and l0[0] == "mutated" and l0[1] == L and not later
                 line_t = l0
                 ups = [u_ for u_ in ups]
